@@ -62,6 +62,9 @@ static void nd_configuration(Instance& f) {
 static void sync_monitor(const Instance& f) {
   for (int s = 0; s < VM_NS; ++s) { g_entered[s] = spec_active(f, s); g_enter_count[s] = 0; g_exit_count[s] = 0; g_exit_guard_ran[s] = false; g_entry_guard_ran[s] = false; }
   for (int s = 0; s < VM_NS; ++s) g_this[s] = nullptr; g_this_consistent = true;
+#ifdef VM_INJECT
+  for (int s = 0; s < VM_NS; ++s) { g_inj_mark[s] = 0; g_own_mark[s] = 0; }
+#endif
   g_seq_len = 0; g_guard_calls = 0; g_in_processing = false; g_round_cancelled = false; g_guards_forbidden = false; g_expect_guards = false;
   for (int s = 0; s < VM_NS; ++s) { g_sel_called[s] = g_rank_called[s] = g_util_called[s] = false; } g_rng_draws = 0;
   g_trace_len = 0; g_log_len = 0; g_log_transitions = 0; g_log_cancels = 0; g_requests_issued = 0; g_cancels_issued = 0; g_deterministic = false;
